@@ -50,6 +50,9 @@ def run(R):
     R.rule("C08-R1", "decision guard: every Alert placed in a certified result is controlled by `L >= threshold` where L is the "
                      "published probability / the lower bound of the published interval; every NoAlert by `upper < threshold` "
                      "of the published interval, or by the false edge of the >= test on an exact probability")
+    R.rule("C08-R5", "budget failures propagate below the controller: in every helper of hybrid.rs that itself returns a Result with a "
+                     "budget / compile / reason error, the failure edge of a budgeted step never leads to an Ok return (a partial "
+                     "compilation must not be handed up as if it were complete - callers add its value to certified bounds)")
     R.rule("C08-R2", "failures stop at NeedsExact: from the error edge of every budgeted/fallible step no certified result "
                      "(Exact/Bounded/LowerBound) is reachable except through the success edge of the exact compilation; "
                      "swallowed failures only feed metrics")
@@ -59,6 +62,7 @@ def run(R):
                      "under the true edge of inserting that seed into the proof set (a seed met twice must not be counted twice)")
     bodies = [b for b in prog.bodies.values() if b.crate == "shared" and b.file.endswith("hybrid.rs") and not is_test(b) and not b.derived]
     r4(R, bodies)
+    r5(R)
     # ---- R1
     nsites = ncert = 0
     for b in sorted(bodies, key=lambda x: x.key):
@@ -220,6 +224,36 @@ def run(R):
 
 PSS = "shared::hybrid::ProofSearchState"
 THROUGH = ("branch", "ok_or", "ok_or_else", "unwrap", "expect", "map_err", "ok", "into", "from", "clone", "unwrap_or")
+
+
+def r5(R):
+    prog = R.prog
+    n = 0
+    for b in sorted(prog.bodies.values(), key=lambda x: x.key):
+        if b.crate != "shared" or not b.file.endswith("hybrid.rs") or is_test(b) or b.is_closure:
+            continue
+        rt = b.local_ty(0)
+        if "Result<" not in rt or not any(e in rt for e in ERR_TYPES):
+            continue
+        oks = {bb for bb, i, pl, rv, s in b.assigns() if pl["l"] == 0 and not pl["p"] and rv["rv"] == "aggregate" and rv.get("variant") == "Ok"}
+        for c in b.calls():
+            ty = b.local_ty(c.dest["l"]) if not c.dest["p"] else ""
+            if not ("Result<" in ty and any(e in ty for e in ERR_TYPES)):
+                continue
+            n += 1
+            R.saw(b)
+            edges = _error_edges(b, c)
+            if not edges:
+                # result returned as is / passed on: fine (the error travels with it)
+                continue
+            bad = set()
+            for e in edges:
+                bad |= b.reach_from([e]) & oks
+            R.ob("C08-R5", "propagates:%s:%s:%d" % (b.name, c.name(), _ordc(b, c)), "in %s a failure of %s never ends in an Ok return" % (b.name, c.name()),
+                 not bad, where=b.where(c.ln),
+                 detail=None if not bad else "an Ok value is built on a path from the failure edge: the caller treats a partial result (e.g. the count "
+                 "of only the proofs compiled before the deadline) as complete and publishes bounds that exclude the true probability")
+    R.floor("C08-R5", "budgeted steps inside Result-returning helpers", n, 5)
 
 
 def _value_call(b, op, depth=0):
